@@ -323,4 +323,77 @@ theorem parse_serialize_crosslink_false :
       .ok "PEPTIDE\\\\PEPTIDE".toList ∧
     parse true "PEPTIDE\\\\PEPTIDE".toList = .error .format := by decide +kernel
 
+/-! ## 5. the round trip for every accepted grammatical string -/
+
+/-- the text of every grammatical tree is a grammatical string -/
+theorem render_grammatical (t : SText) (h : t.grammatical = true) : grammaticalString t.render = true := by
+  simp only [SText.grammatical, Bool.and_eq_true] at h
+  simp only [grammaticalString, parse_render t h.1, h.2]
+
+theorem conns_eq_flags (conns : List (Option Bool)) (h : conns.all (fun c => c.isSome) = true) :
+    conns = (conns.map fun c => c.getD false).map some := by
+  induction conns with
+  | nil => rfl
+  | cons c t ih =>
+    simp only [List.all_cons, Bool.and_eq_true] at h
+    cases c with
+    | none => simp at h
+    | some b => simp only [List.map_cons, Option.getD_some]; rw [← ih h.2]
+
+/-- **Round trip for accepted strings.** If the parser accepts `s` and the result is canonical — in particular for the
+text of every grammatical tree — then serializing the result (any per-modification choice of the `+` spelling; crosslink
+joiner as repaired) and parsing again gives the same object. -/
+theorem accepted_roundtrip (plus : Plus) (s : List Char) (p : Parsed) (_hp : parse true s = .ok p)
+    (hc : canonParsed p = true) : (serializeParsedFixed plus p).bind (parse true) = .ok p := by
+  cases p with
+  | single a => show parse true (serialize plus a) = _; exact parse_serialize plus a hc
+  | multi as conns =>
+    simp only [canonParsed, Bool.and_eq_true, decide_eq_true_eq] at hc
+    obtain ⟨⟨⟨h2, hcan⟩, hlen⟩, hsome⟩ := hc
+    have hfl := conns_eq_flags conns hsome
+    rw [hfl]
+    exact parse_serializeMultiFixed plus as h2 hcan _ (by simpa using hlen)
+
+/-- … and for the code as it is (two-backslash joiner) whenever no chain is crosslinked -/
+theorem accepted_roundtrip_as_coded (plus : Plus) (s : List Char) (p : Parsed) (_hp : parse true s = .ok p)
+    (hc : canonParsed p = true) (hx : noCrosslink p = true) : (serializeParsed plus p).bind (parse true) = .ok p := by
+  cases p with
+  | single a => show parse true (serialize plus a) = _; exact parse_serialize plus a hc
+  | multi as conns =>
+    simp only [canonParsed, Bool.and_eq_true, decide_eq_true_eq] at hc
+    obtain ⟨⟨⟨h2, hcan⟩, hlen⟩, _⟩ := hc
+    have hrep : conns = List.replicate (as.length - 1) (some false) := by
+      simp only [noCrosslink, List.all_eq_true, beq_iff_eq] at hx
+      apply List.eq_replicate_iff.mpr
+      exact ⟨by omega, hx⟩
+    obtain ⟨h3, h4⟩ := parse_serialize_multi_partial plus as h2 hcan
+    rw [hrep]
+    simp only [serializeParsed, serializeMulti] at h3 ⊢
+    rw [h3]
+    exact h4
+
+/-- serialization is a fixpoint after one round trip, for every accepted grammatical string -/
+theorem accepted_serialize_fixpoint (plus : Plus) (s : List Char) (p : Parsed) (hp : parse true s = .ok p)
+    (hc : canonParsed p = true) :
+    ((serializeParsedFixed plus p).bind (parse true)).bind (serializeParsedFixed plus) = serializeParsedFixed plus p := by
+  rw [accepted_roundtrip plus s p hp hc]; rfl
+
+example : grammaticalString "[a]?(?PE)[+1.0]^3P-[Formula:[13C2]H4]/-2+K//AC[Oxidation]".toList = true := by decide +kernel
+
+/-- Accepted text whose result is NOT grammatical: the parser takes it, the round-trip theorems do not cover it.
+(1) a chain without residues (`{a}`, `[a]-`, `<13C>`): on the real code these do round-trip; (2) numbers outside the
+`repr` model (`PEP[1e400]` is `inf` in Python and round-trips there; the model carries it opaquely). -/
+theorem accepted_not_grammatical :
+    accepted "{a}".toList = true ∧ grammaticalString "{a}".toList = false ∧
+    accepted "[a]-".toList = true ∧ grammaticalString "[a]-".toList = false ∧
+    accepted "PEP[1e400]".toList = true ∧ grammaticalString "PEP[1e400]".toList = false := by decide +kernel
+
+/-- Text that used to be accepted although its result did not survive serialize/parse is rejected since fix 0b351bb:
+a dangling `-`, an unclosed or empty interval, a modification before the first residue, a multiplier `^0`. -/
+theorem ungrammatical_rejected :
+    parse true "PEP-".toList = .error .format ∧ parse true "(PEP".toList = .error .format ∧
+    parse true "PEP()".toList = .error .format ∧ parse true "([a]P)".toList = .error .format ∧
+    parse true "PEP[a]^0".toList = .error .format ∧ parse true "(PEP-[a]".toList = .error .format ∧
+    parse true "(PEP/2".toList = .error .format := by decide +kernel
+
 end Pept
